@@ -61,6 +61,12 @@ func (q *Queue) Dequeue() []byte {
 	q.lock.Lock()
 	defer q.lock.Unlock()
 
+	if len(q.queue) == 0 {
+		// somebody else took the last chunk between the depth check above and getting the lock
+		// (Close running an on-close function while an operation is still reading, for one)
+		return nil
+	}
+
 	b := q.queue[0]
 
 	q.queue = q.queue[1:]
@@ -80,6 +86,10 @@ func (q *Queue) DequeueAll() []byte {
 
 	q.lock.Lock()
 	defer q.lock.Unlock()
+
+	if len(q.queue) == 0 {
+		return nil
+	}
 
 	b := q.queue
 
